@@ -93,6 +93,8 @@ structure Wrapper where
   ret : RetTy
   /-- pointer arguments (and `table->data`, `buffer->data`) that are tested before use, as written in the source -/
   nullChecked : List String
+  /-- pointers that must be NULL on entry (`buffer->data` of writesplinefitstable_mem), tested by the same guard -/
+  mustBeNull : List String
   /-- `table->data` is dereferenced somewhere in the body -/
   derefsData : Bool
   /-- the null guard returns the failure value (non-zero / NULL); `true` when there is no guard or the wrapper is void -/
